@@ -48,6 +48,8 @@ structure Datum (α : Type) where
   b : α
   es : α
   ep2 : α
+  /-- `nadGrids` (set by `getDatum` for a grid-shift datum only) -/
+  nadGrids : String := ""
 deriving Inhabited
 
 def pjd3Param : Nat := 1
@@ -186,21 +188,25 @@ def getDatum (proj : SR α) : Datum α × List α :=
       else (ty, ps)
     else (ty, [])
   let ty := if proj.nadGrids != "" then pjdGridShift else ty
-  ({ datum_type := ty, datum_params := ps, a := gnum proj.a, b := gnum proj.b, es := proj.es, ep2 := proj.ep2 },
+  ({ datum_type := ty, datum_params := ps, a := gnum proj.a, b := gnum proj.b, es := proj.es, ep2 := proj.ep2,
+     nadGrids := if ty == pjdGridShift then proj.nadGrids else "" },
    if proj.datumParams.length > 0 then ps else proj.datumParams)
 
 def dpar (d : Datum α) (i : Nat) : α := listGet d.datum_params i
 
+/-- `compare_datums` (REGENERATED: `Gen.Go.datum_compare_datums`; here only the plumbing between the two
+`*datum` records and its named parameters; an index past the end of `datum_params` would panic in Go and
+cannot occur: the datum type is derived from the length) -/
 def compare_datums (this dest : Datum α) : Bool :=
-  if this.datum_type != dest.datum_type then false
-  else if ne this.a dest.a || gt (abs (this.es - dest.es)) 0.000000000050 then false
-  else if this.datum_type == pjd3Param then
-    eq (dpar this 0) (dpar dest 0) && eq (dpar this 1) (dpar dest 1) && eq (dpar this 2) (dpar dest 2)
-  else if this.datum_type == pjd7Param then
-    eq (dpar this 0) (dpar dest 0) && eq (dpar this 1) (dpar dest 1) && eq (dpar this 2) (dpar dest 2) &&
-    eq (dpar this 3) (dpar dest 3) && eq (dpar this 4) (dpar dest 4) && eq (dpar this 5) (dpar dest 5) &&
-    eq (dpar this 6) (dpar dest 6)
-  else true
+  datum_compare_datums (dest_a := dest.a) (dest_es := dest.es) (this_a := this.a) (this_es := this.es)
+    (dest_datum_params_0 := dpar dest 0) (dest_datum_params_1 := dpar dest 1) (dest_datum_params_2 := dpar dest 2)
+    (dest_datum_params_3 := dpar dest 3) (dest_datum_params_4 := dpar dest 4) (dest_datum_params_5 := dpar dest 5)
+    (dest_datum_params_6 := dpar dest 6)
+    (this_datum_params_0 := dpar this 0) (this_datum_params_1 := dpar this 1) (this_datum_params_2 := dpar this 2)
+    (this_datum_params_3 := dpar this 3) (this_datum_params_4 := dpar this 4) (this_datum_params_5 := dpar this 5)
+    (this_datum_params_6 := dpar this 6)
+    (dest_datum_type := dest.datum_type) (this_datum_type := this.datum_type)
+    (dest_nadGrids := dest.nadGrids) (this_nadGrids := this.nadGrids)
 
 structure P3 (α : Type) where
   x : α
@@ -270,7 +276,8 @@ def geocentric_from_wgs84 (this : Datum α) (p : P3 α) : P3 α :=
 
 /-! ## datum_transform.go -/
 
-def checkDatumParams (t : Nat) : Bool := t == pjd3Param || t == pjd7Param
+/-- `checkDatumParams` (REGENERATED: `Gen.Go.datum_checkDatumParams`) -/
+def checkDatumParams (t : Nat) : Bool := datum_checkDatumParams (α := α) t
 
 def datumTransform (source dest : Datum α) (p : P3 α) : Except String (P3 α) :=
   if compare_datums source dest then .ok p
@@ -280,10 +287,10 @@ def datumTransform (source dest : Datum α) (p : P3 α) : Except String (P3 α) 
     -- a grid-shift destination takes the WGS84 ellipsoid for the geocentric step and then fails
     let (da, des) : α × α := if dest.datum_type == pjdGridShift then (c_srsWGS84SemiMajor, c_srsWGS84ESquared) else (dest.a, dest.es)
     let r : Except String (P3 α) :=
-      if ne source.es des || ne source.a da || checkDatumParams source.datum_type || checkDatumParams dest.datum_type then do
+      if ne source.es des || ne source.a da || checkDatumParams (α := α) source.datum_type || checkDatumParams (α := α) dest.datum_type then do
         let g ← geodetic_to_geocentric source p.x p.y p.z
-        let g := if checkDatumParams source.datum_type then geocentric_to_wgs84 source g else g
-        let g := if checkDatumParams dest.datum_type then geocentric_from_wgs84 dest g else g
+        let g := if checkDatumParams (α := α) source.datum_type then geocentric_to_wgs84 source g else g
+        let g := if checkDatumParams (α := α) dest.datum_type then geocentric_from_wgs84 dest g else g
         pure (geocentric_to_geodetic { dest with a := da, es := des } g.x g.y g.z)
       else .ok p
     match r with
